@@ -7,10 +7,11 @@ Open Scope Z_scope.
 (* ---- the full statement, over the model of constant.go: every arithmetic
    operation on number constants of any representation class that yields a
    constant yields the exact result (integer division truncates), and the
-   complex operations never fault on operands below 512 bits.  It is FALSE of
-   the code as it is (C02_statement_refuted): floatConst arithmetic rounds to
-   512 bits, complexConst ignores the overflow of its part operations.  The
-   theorems after it are the proved part. *)
+   complex operations never fault on operands below 512 bits.  The first half
+   is FALSE of the code as it is (C02_statement_refuted): floatConst
+   arithmetic rounds to 512 bits.  The second half holds since the repair of
+   complexConst.binaryOp (C02_complex_total, for operands of every class and
+   size).  The theorems after it are the proved part. *)
 Definition rcQ (c : rc) : Q :=
   match c with
   | I64 z | Big z => inject_Z z
@@ -39,9 +40,24 @@ Proof.
 Qed.
 Print Assumptions C02_statement_refuted.
 
-Theorem C02_complex_total_refuted :
-  exists x, Z.abs x < 2 ^ 512 /\ bin_cplx OMul (Big x) (I64 0) (Big x) (I64 0) = Fault.
-Proof. exact cplx_mul_fault_witness. Qed.
+(* ---- the complex operations never fault: for parts of every representation
+   class and every size each operation yields a constant or an error (the
+   error of the first failing operation on the parts, e.g. the 512 bit
+   overflow of a product).  Before the fix commit the witnesses below were
+   faults (nil dereference in Build). *)
+Theorem C02_complex_total : forall o a b c d, bin_cplx o a b c d <> Fault.
+Proof. exact cplx_no_fault. Qed.
+Print Assumptions C02_complex_total.
+
+Theorem C02_statement_second_half : forall o a b c d, is_field_op o = true ->
+  Z.abs a < 2 ^ 512 -> Z.abs b < 2 ^ 512 -> Z.abs c < 2 ^ 512 -> Z.abs d < 2 ^ 512 ->
+  bin_cplx o (Big a) (Big b) (Big c) (Big d) <> Fault.
+Proof. exact cplx_no_fault_big. Qed.
+
+Example C02_complex_overflow_rejected :
+  bin_cplx OMul (Big (2 ^ 511)) (I64 0) (Big (2 ^ 511)) (I64 0) = Err EMulOverflow /\
+  bin_cplx ODiv (I64 0) (I64 1000) (Big (2 ^ 256 + 1)) (I64 0) = Err EMulOverflow.
+Proof. split; [exact cplx_mul_overflow_witness|exact cplx_div_overflow_witness]. Qed.
 
 (* ---- the int64 fast path: for all int64 operands the overflow tests of the
    code are exact: the result denotes a+b (a-b, a*b) and is an int64Const
